@@ -47,6 +47,21 @@ Proof.
   inversion H; subst. exists osid. auto.
 Qed.
 
+Theorem open_spec_sid : forall hb p v caps sid ch,
+  nc_open hb p = OpenOk v caps sid ch ->
+  exists osid, parse_hello hb = HelloOk caps osid /\ sid = match osid with Some z => z | None => 0%Z end.
+Proof.
+  intros hb p v caps sid ch H. unfold nc_open in H.
+  destruct (parse_hello hb) as [caps' osid| |]; try discriminate.
+  destruct (determine_version caps' p) as [v'|] eqn:Hd; try discriminate.
+  inversion H; subst. exists osid. auto.
+Qed.
+
+Theorem open_complete : forall hb p caps osid v,
+  parse_hello hb = HelloOk caps osid -> determine_version caps p = Some v ->
+  nc_open hb p = OpenOk v caps (match osid with Some z => z | None => 0%Z end) (client_hello v).
+Proof. intros hb p caps osid v H1 H2. unfold nc_open. rewrite H1, H2. reflexivity. Qed.
+
 Theorem open_never_other : forall hb p, nc_open hb p <> OpenOther.
 Proof.
   intros hb p. unfold nc_open.
@@ -133,7 +148,7 @@ Corollary complete_message_filed' : forall v b st chunk id,
   contains END_RPC (b ++ chunk) = false ->
   message_id_of (b ++ chunk) = id -> id <> 0%Z ->
   exists st', nc_read_chunk v b st chunk = RdKeep [] st' /\ store_get st' id = Some (b ++ chunk).
-Proof. intros. apply complete_message_filed; auto using empty_no_delim. Qed.
+Proof. intros. apply complete_message_filed; try assumption. apply empty_no_delim. Qed.
 
 Theorem incomplete_kept : forall v b st chunk,
   rx_match (delim_re v) (b ++ chunk) = false -> nc_read_chunk v b st chunk = RdKeep (b ++ chunk) st.
@@ -571,6 +586,105 @@ Proof.
   apply ids_increase in H. rewrite Hn in H. tauto.
 Qed.
 
+(* --- the panic branch of the read loop is unreachable ---
+   nc_examine models `ss[1]` after Split(b, 2) as a possible index panic, but it is only evaluated
+   when the delimiter matched, and then Split always yields two pieces. *)
+Lemma after_first_of_match (r : re) (b : bytes) :
+  rx_match r b = true -> exists rest, rx_after_first r b = Some rest.
+Proof.
+  unfold rx_match, rx_after_first. destruct (rx_search r b) as [| |st e c]; try discriminate.
+  intros _. eexists. reflexivity.
+Qed.
+
+Lemma nc_settle_no_panic : forall fuel v b st, nc_settle fuel v b st <> RdPanic.
+Proof.
+  induction fuel as [|f IH]; intros v b st; cbn [nc_settle]; [discriminate|].
+  unfold nc_examine. destruct (rx_match (delim_re v) b) eqn:Hm; [|discriminate].
+  destruct (contains END_RPC b).
+  - destruct (after_first_of_match _ _ Hm) as [rest ->]. apply IH.
+  - apply IH.
+Qed.
+
+Theorem read_loop_no_panic : forall v b st chunk, nc_read_chunk v b st chunk <> RdPanic.
+Proof. intros. apply nc_settle_no_panic. Qed.
+
+Lemma apply_chunk_panic (s : nst) (c : bytes) : n_panic (apply_chunk s c) = n_panic s.
+Proof.
+  unfold apply_chunk. destruct (nc_read_chunk (n_ver s) (n_buf s) (n_store s) c) eqn:E; [reflexivity|].
+  exfalso. eapply read_loop_no_panic; eauto.
+Qed.
+
+Lemma run_segment_panic : forall seg s dl er s' dl' er',
+  run_segment s seg dl er = (s', dl', er') -> n_panic s' = n_panic s.
+Proof.
+  induction seg as [|e t IH]; intros s dl er s' dl' er' H; cbn [run_segment] in H.
+  - inversion H; subst. reflexivity.
+  - destruct e as [c|w| | |]; apply IH in H; [rewrite H; apply apply_chunk_panic|exact H..].
+Qed.
+
+Lemma do_rpc_panic (s : nst) (o : nc_op) (seg : list nlev) (s' : nst) (r : rpc_out) :
+  do_rpc s o seg = (s', r) -> n_panic s' = n_panic s.
+Proof.
+  unfold do_rpc. intros H. destruct (op_payload o) as [p|].
+  - destruct (run_segment _ seg false false) as [[s2 dl] er] eqn:E.
+    apply run_segment_panic in E. cbn [n_panic] in E.
+    destruct (n_panic s2) eqn:Hpan;
+      [|destruct er; [|destruct dl; [|destruct (store_get _ _);
+                                       [destruct (record_fast _ _)|]]]];
+      apply pair_equal_spec in H; destruct H as [<- _]; cbn [n_panic]; congruence.
+  - destruct (run_segment s seg false false) as [[s2 dl] er] eqn:E.
+    apply run_segment_panic in E. apply pair_equal_spec in H; destruct H as [<- _]. exact E.
+Qed.
+
+Lemma run_rpcs_no_panic : forall ops s segs s' outs,
+  n_panic s = false -> run_rpcs s ops segs = (s', outs) -> ~ In RPanic outs /\ n_panic s' = false.
+Proof.
+  induction ops as [|o ops IH]; intros s segs s' outs Hp H;
+    apply run_rpcs_inv in H;
+    destruct H as [(_ & -> & ->)|(o' & ops' & seg & segs' & s1 & r & rs & Ho & -> & Hd & Hr & ->)];
+    try discriminate; try (split; [intros []|exact Hp]).
+  injection Ho as <- <-.
+  pose proof (do_rpc_panic _ _ _ _ _ Hd) as Hp1. rewrite Hp in Hp1.
+  destruct (IH _ _ _ _ Hp1 Hr) as [Hno Hp2]. split; [|exact Hp2].
+  intros [->|Hin]; [|contradiction].
+  apply do_rpc_cases in Hd. destruct Hd as (_ & _ & _ & _ & _ & _ & Hd).
+  destruct Hd as [[_ [Habs _]]|[p [_ [_ [[_ Hpan]|[_ [Habs|[Habs|[Habs|(? & ? & ? & ? & Habs & _)]]]]]]]]];
+    try discriminate. congruence.
+Qed.
+
+Theorem session_no_panic : forall v force xh ops log s outs,
+  nc_session v force xh ops log = (s, outs) -> ~ In RPanic outs.
+Proof.
+  intros v force xh ops log s outs H. unfold nc_session in H.
+  destruct (split_calls log []) as [|seg0 segs]; [inversion H; intros []|].
+  destruct (run_segment _ seg0 false false) as [[s1 dl] er] eqn:E.
+  apply run_segment_panic in E. cbn [n_panic] in E.
+  eapply run_rpcs_no_panic; eauto.
+Qed.
+
+(* consequently, in a session every outcome that consumed an id shows it, and the shown ids are
+   exactly initial, initial+1, ... — one per built request *)
+Theorem session_ids_exact : forall v force xh ops log s outs,
+  nc_session v force xh ops log = (s, outs) ->
+  map out_id (filter consumed_id outs)
+    = map (fun k => Some (Z.of_N (ncd_initial_message_id + N.of_nat k)))
+          (seq 0 (length (built (firstn (length outs) ops)))).
+Proof.
+  intros v force xh ops log s outs H.
+  pose proof (session_no_panic _ _ _ _ _ _ _ H) as Hno.
+  assert (Hf : filter consumed_id outs = filter has_id outs).
+  { clear H. induction outs as [|o t IH]; [reflexivity|]. cbn [filter].
+    rewrite IH by (intros Hin; apply Hno; right; exact Hin).
+    destruct o; try reflexivity. exfalso. apply Hno. left. reflexivity. }
+  destruct (session_ids _ _ _ _ _ _ _ H) as [H1 H2].
+  unfold nc_session in H.
+  destruct (split_calls log []) as [|seg0 segs]; [inversion H; reflexivity|].
+  destruct (run_segment _ seg0 false false) as [[s1 dl] er] eqn:E.
+  apply run_segment_inv in E. cbn [n_next_id] in E. destruct E as (_ & _ & _ & Hn & _).
+  apply ids_increase in H. destruct H as (_ & J2 & J3 & _).
+  rewrite Hf, H1. f_equal. f_equal. rewrite <- Hf. lia.
+Qed.
+
 (* ================================================================================================
    C. Request content (C03) *)
 
@@ -795,3 +909,76 @@ Proof.
   - cbn [app expected_writes]. f_equal. apply IH.
   - cbn [app]. apply IH.
 Qed.
+
+(* ================================================================================================
+   Non-vacuity: closed instances checked by computation *)
+
+Definition sample_reply (id : String.string) : bytes :=
+  bs "<rpc-reply message-id=""" ++ bs id ++ bs """><ok/></rpc-reply>]]>]]>".
+Arguments sample_reply id%string.
+
+Example filed_instance :
+  nc_read_chunk V10 [] [] (sample_reply "101") = RdKeep [] [(101%Z, sample_reply "101")].
+Proof. vm_compute. reflexivity. Qed.
+
+(* a late reply to an abandoned request (101 timed out) stays in the store under its own id and is
+   not handed to the next call (102), which gets its own reply *)
+Example late_reply_instance :
+  snd (nc_session V10 false false [ORaw (bs "<a/>"); ORaw (bs "<b/>")]
+         [NCall; NDeadline; NCall; NR (sample_reply "101"); NR (sample_reply "102")])
+  = [RTimeout 101;
+     ROk 102 (ser_raw (serialize V10 false false 102 (bs "<b/>")))
+             (ser_framed (serialize V10 false false 102 (bs "<b/>")))
+             (bs "<rpc-reply message-id=""102""><ok/></rpc-reply>") false false]
+  /\ store_get (n_store (fst (nc_session V10 false false [ORaw (bs "<a/>"); ORaw (bs "<b/>")]
+         [NCall; NDeadline; NCall; NR (sample_reply "101"); NR (sample_reply "102")]))) 101 <> None.
+Proof. split; vm_compute; [reflexivity|discriminate]. Qed.
+
+Print Assumptions version_table.
+Print Assumptions version_11_iff.
+Print Assumptions client_hello_caps.
+Print Assumptions open_spec.
+Print Assumptions open_spec_sid.
+Print Assumptions open_complete.
+Print Assumptions open_never_other.
+Print Assumptions ids_increase.
+Print Assumptions ids_positionwise.
+Print Assumptions panic_sticky.
+Print Assumptions store_wf_chunk.
+Print Assumptions own_reply.
+Print Assumptions own_reply_request.
+Print Assumptions own_reply_session.
+Print Assumptions own_reply_session_strong.
+Print Assumptions late_reply_harmless.
+Print Assumptions empty_no_delim.
+Print Assumptions complete_message_filed.
+Print Assumptions complete_message_filed'.
+Print Assumptions incomplete_kept.
+Print Assumptions read_loop_no_panic.
+Print Assumptions session_no_panic.
+Print Assumptions session_ids.
+Print Assumptions session_ids_exact.
+Print Assumptions edit_config_content.
+Print Assumptions edit_config_carries_config.
+Print Assumptions edit_config_carries_target.
+Print Assumptions get_config_content.
+Print Assumptions get_config_filter_cases.
+Print Assumptions copy_config_content.
+Print Assumptions delete_config_content.
+Print Assumptions lock_content.
+Print Assumptions unlock_content.
+Print Assumptions validate_content.
+Print Assumptions raw_content.
+Print Assumptions build_error_only_get.
+Print Assumptions rpc_wrapper.
+Print Assumptions rpc_wrapper_id.
+Print Assumptions serialize_wire.
+Print Assumptions header_option_local.
+Print Assumptions force_option_off.
+Print Assumptions wire_11_decodes.
+Print Assumptions wire_11_decodes_noforce.
+Print Assumptions wire_10_splits.
+Print Assumptions session_ids_writes.
+Print Assumptions session_writes_ids.
+Print Assumptions filed_instance.
+Print Assumptions late_reply_instance.
